@@ -408,5 +408,5 @@ func (fi *FrameInfo) of(f *ssa.Function, c *ssa.CallCommon) map[string]bool {
 }
 
 func isBigMethod(f *ssa.Function) bool {
-	return funcPkgPath(f) == "math/big"
+	return strings.HasPrefix(funcFullName(f), "math/big.Int.")
 }
